@@ -394,3 +394,236 @@ Proof.
   destruct (fold_left_good sc F o env tp x l G H C) as [G1 [H1 C1]].
   split; [apply join_all_good; auto|split; auto]. apply join_all_has_step; auto.
 Qed.
+
+(* ------------------------------------------------------------------ the runner's code around the scripts *)
+Definition rgood (l : loc) (r : rstate) : Prop :=
+  good l [] (rs_t r) /\ has_step (rs_t r) /\ children_ok l (rs_children r).
+
+Lemma run_script_good o env sc s failed children l :
+  good l [] s -> has_step s -> children_ok l children ->
+  let x := run_script o env sc s failed children in
+  good l [] (sr_state x) /\ has_step (sr_state x) /\ children_ok l (sr_children x).
+Proof.
+  intros G H C. unfold run_script.
+  assert (G0 : good l [] (emit (AtBegin o) s)) by (apply good_emit_nonfire; auto; intros e; discriminate).
+  assert (H0 : has_step (emit (AtBegin o) s)) by (apply has_step_emit; auto).
+  destruct (interp_good o [] env sc (mkSres (emit (AtBegin o) s) failed children None [] 0) l G0 H0 C) as [G1 [H1 C1]].
+  cbv zeta. destruct (sr_raised (interp o [] env sc _)); cbn [sr_state sr_children]; auto.
+  split; [|split]; [apply good_emit_nonfire; auto; intros e; discriminate|apply has_step_emit; auto|exact C1].
+Qed.
+
+Lemma call_sfun_good env f r l : rgood l r -> rgood l (fst (call_sfun env f r)).
+Proof.
+  intros [G [H C]]. destruct f; simpl; unfold rgood; cbn [rs_t rs_children]; auto;
+    apply run_script_good; auto.
+Qed.
+
+Lemma call_tfun_good env f r l : rgood l r -> rgood l (fst (call_tfun env f r)).
+Proof.
+  intros [G [H C]]. destruct f; simpl; unfold rgood.
+  - destruct (fx_generator f); cbn [fst rs_t rs_children]; auto. apply run_script_good; auto.
+  - cbn [rs_t rs_children]. apply run_script_good; auto.
+  - cbn [rs_t rs_children]. apply run_script_good; auto;
+      try (apply good_emit_nonfire; auto; intros e; discriminate); try (apply has_step_emit; auto).
+Qed.
+
+Lemma handle_exception_good k suite s l : good l [] s -> has_step s ->
+  good l [] (handle_exception k suite s) /\ has_step (handle_exception k suite s).
+Proof.
+  intros G H. pose proof (good_loc _ _ _ G) as L.
+  unfold handle_exception. destruct k; try (apply do_log_good; auto).
+  - destruct (do_log_good l [] 3 MAbortSuite s G H L) as [G1 H1]. destruct suite; auto.
+    split; [apply good_emit_nonfire; auto; intros e; discriminate|apply has_step_emit; auto].
+  - destruct (do_log_good l [] 3 MAbortAll s G H L) as [G1 H1].
+    split; [apply good_emit_nonfire; auto; intros e; discriminate|apply has_step_emit; auto].
+Qed.
+
+Lemma after_exception_good k suite r l : rgood l r -> rgood l (after_exception k suite r).
+Proof.
+  intros [G [H C]]. unfold after_exception, rgood. destruct (is_exception k); cbn [rs_t rs_children]; auto.
+  destruct (handle_exception_good k suite (rs_t r) l G H); auto.
+Qed.
+
+Lemma run_setup_funcs_good env pairs : forall r kept l, rgood l r -> rgood l (fst (run_setup_funcs env pairs r kept)).
+Proof.
+  induction pairs as [|[[f|] td] rest IH]; intros r kept l R; simpl; auto.
+  pose proof (call_sfun_good env f r l R) as R1.
+  destruct (call_sfun env f r) as [r1 [k|]]; simpl in *.
+  - apply after_exception_good; auto.
+  - destruct (rs_failed r1); simpl; auto.
+Qed.
+
+Lemma run_teardown_list_good env tds : forall r l, rgood l r -> rgood l (run_teardown_list env tds r).
+Proof.
+  induction tds as [|[f|] rest IH]; intros r l R; simpl; auto.
+  destruct (rs_died r); auto.
+  pose proof (call_tfun_good env f r l R) as R1.
+  destruct (call_tfun env f r) as [r1 [k|]]; simpl in *; apply IH; auto.
+  apply after_exception_good; auto.
+Qed.
+
+Lemma close_result l s e : good l [] s -> result_level e = true ->
+  thread_done l [] (ts_out (fire e (end_step_if_any [] s))).
+Proof.
+  intros G R. destruct (good_end_step_if_any l [] s G) as [q [A [_ [_ [O _]]]]].
+  exists q. unfold fire, emit. simpl. rewrite events_of_app, paccepts_app, A. simpl.
+  rewrite (result_level_pstep _ _ _ _ R O). auto.
+Qed.
+
+Lemma close_phase l s is_start e : good l [] s -> result_level e = true ->
+  thread_done l [] (ts_out (discard_or_fire is_start e (end_step_if_any [] s))).
+Proof.
+  intros G R. destruct (good_end_step_if_any l [] s G) as [q [A [_ [_ [O _]]]]].
+  unfold discard_or_fire. destruct (rev (ts_pending (end_step_if_any [] s))) as [|last before].
+  - exists q. unfold fire, emit. simpl. rewrite events_of_app, paccepts_app, A. simpl.
+    rewrite (result_level_pstep _ _ _ _ R O). auto.
+  - destruct (is_start last).
+    + exists q. simpl. auto.
+    + exists q. unfold fire, emit. simpl. rewrite events_of_app, paccepts_app, A. simpl.
+      rewrite (result_level_pstep _ _ _ _ R O). auto.
+Qed.
+
+Lemma rgood_died_out l r : rgood l r -> exists q, paccepts l [] p0 (events_of (ts_out (rs_t r))) = Some q.
+Proof. intros [[q [A _]] _]. eauto. Qed.
+
+(* what is proved of every task: each thread's events follow the grammar; when the task ends normally every step bracket
+   is closed *)
+Record threads_ok (l : loc) (o : tout) : Prop := {
+  tk_main : to_res o <> TkDied -> thread_done l [] (to_main o);
+  tk_main_prefix : exists q, paccepts l [] p0 (events_of (to_main o)) = Some q;
+  tk_children : children_ok l (to_children o) }.
+
+Lemma thread_done_prefix l th out : thread_done l th out -> exists q, paccepts l th p0 (events_of out) = Some q.
+Proof. intros [q [A _]]. eauto. Qed.
+
+Lemma finish_died l r kept : rgood l r -> rs_died r = true -> threads_ok l (finish r kept).
+Proof.
+  intros R D. destruct R as [[q [A Sh]] [H C]]. constructor; unfold finish; simpl; rewrite ?D; simpl; auto.
+  - congruence.
+  - eauto.
+Qed.
+
+Lemma threads_ok_simple l out res kept :
+  (forall a, In a out -> match a with AtFire e => result_level e = true | _ => True end) ->
+  threads_ok l (mkTout out [] res kept).
+Proof.
+  intros Hall.
+  assert (A : paccepts l [] p0 (events_of out) = Some p0).
+  { induction out as [|a r IH]; simpl; auto.
+    assert (Hr : forall a0, In a0 r -> match a0 with AtFire e => result_level e = true | _ => True end)
+      by (intros a0 Ha; apply Hall; right; auto).
+    specialize (Hall a (or_introl eq_refl)). destruct a; simpl; auto.
+    rewrite (result_level_pstep l [] p0 e Hall eq_refl). auto. }
+  constructor; simpl.
+  - intros _. exists p0. split; auto.
+  - eauto.
+  - constructor.
+Qed.
+
+Theorem test_run_threads_ok env p suite t hk fxs : threads_ok (LTest p) (test_run env p suite t hk fxs).
+Proof.
+  unfold test_run. set (l := LTest p).
+  set (pairs := (_, _) :: fixture_pairs fxs).
+  assert (R0 : rgood l (mkRs (set_step SdSetupTest [] (fresh_cursor l [AtFire (RTestStart p)])) false [] false)).
+  { unfold rgood; cbn [rs_t rs_children]. split; [|split; [apply set_step_has_step|constructor]].
+    apply good_set_step. exists p0. split; [reflexivity|]. eapply sh_nostep; simpl; eauto. }
+  set (r0 := mkRs (set_step SdSetupTest [] (fresh_cursor l [AtFire (RTestStart p)])) false [] false) in *.
+  assert (R1 : rgood l (fst (if any_setup pairs then run_setup_funcs env pairs r0 [] else (r0, only_teardowns pairs)))).
+  { destruct (any_setup pairs); [apply run_setup_funcs_good; exact R0|exact R0]. }
+  destruct (if any_setup pairs then run_setup_funcs env pairs r0 [] else (r0, only_teardowns pairs)) as [r1 kept] eqn:E1.
+  simpl in R1.
+  destruct (rs_died r1) eqn:D1; [apply finish_died; auto|].
+  set (r2 := if rs_failed r1 then r1 else _).
+  assert (R2 : rgood l r2).
+  { unfold r2. destruct (rs_failed r1); auto.
+    destruct R1 as [G1 [H1 C1]].
+    pose proof (run_script_good (OBody p) env (tt_body t) (set_step (SdTest (tt_name t)) [] (rs_t r1)) false (rs_children r1) l
+                                (good_set_step _ _ _ _ G1) (set_step_has_step _ _ _) C1) as [G2 [H2 C2]].
+    destruct (sr_raised (run_script (OBody p) env (tt_body t) (set_step (SdTest (tt_name t)) [] (rs_t r1)) false (rs_children r1))).
+    - apply after_exception_good. unfold rgood; cbn [rs_t rs_children]; auto.
+    - unfold rgood; cbn [rs_t rs_children]; auto. }
+  destruct (rs_died r2) eqn:D2; [apply finish_died; auto|].
+  set (r3 := if any_teardown kept then _ else r2).
+  assert (R3 : rgood l r3).
+  { unfold r3. destruct (any_teardown kept); auto. unfold run_teardown_funcs. apply run_teardown_list_good.
+    destruct R2 as [G2 [H2 C2]]. unfold rgood; cbn [rs_t rs_children].
+    split; [apply good_set_step; auto|split; auto]. apply set_step_has_step. }
+  destruct (rs_died r3) eqn:D3; [apply finish_died; auto|].
+  destruct R3 as [G3 [H3 C3]].
+  pose proof (close_result l (rs_t r3) (RTestEnd p) G3 eq_refl) as Dn.
+  constructor; unfold finish; cbn [to_main to_children to_res rs_t rs_children rs_died]; auto.
+  apply (thread_done_prefix _ _ _ Dn).
+Qed.
+
+Theorem setup_phase_threads_ok env l start end_ is_start d pairs :
+  result_level start = true -> result_level end_ = true ->
+  threads_ok l (setup_phase env l start end_ is_start d pairs).
+Proof.
+  intros Rs Re. unfold setup_phase. destruct (any_setup pairs).
+  2:{ apply threads_ok_simple. intros a []. }
+  set (r0 := mkRs (set_step d [] (hold start (fresh_cursor l []))) false [] false).
+  assert (R0 : rgood l r0).
+  { unfold rgood, r0; cbn [rs_t rs_children]. split; [|split; [apply set_step_has_step|constructor]].
+    apply good_set_step. exists p0. split; [reflexivity|].
+    eapply sh_nostep with (pre := [start]); simpl; eauto. }
+  pose proof (run_setup_funcs_good env pairs r0 [] l R0) as R1.
+  destruct (run_setup_funcs env pairs r0 []) as [r kept]. simpl in R1.
+  destruct (rs_died r) eqn:D; [apply finish_died; auto|].
+  destruct R1 as [G1 [H1 C1]].
+  pose proof (close_phase l (rs_t r) is_start end_ G1 Re) as Dn.
+  constructor; unfold finish; cbn [to_main to_children to_res rs_t rs_children rs_died]; auto.
+  apply (thread_done_prefix _ _ _ Dn).
+Qed.
+
+Theorem teardown_phase_threads_ok env l start end_ is_start d kept :
+  result_level start = true -> result_level end_ = true ->
+  threads_ok l (teardown_phase env l start end_ is_start d kept).
+Proof.
+  intros Rs Re. unfold teardown_phase. destruct (any_teardown kept).
+  2:{ apply threads_ok_simple. intros a []. }
+  set (r0 := mkRs (set_step d [] (hold start (fresh_cursor l []))) false [] false).
+  assert (R0 : rgood l r0).
+  { unfold rgood, r0; cbn [rs_t rs_children]. split; [|split; [apply set_step_has_step|constructor]].
+    apply good_set_step. exists p0. split; [reflexivity|].
+    eapply sh_nostep with (pre := [start]); simpl; eauto. }
+  pose proof (run_teardown_list_good env (rev kept) r0 l R0) as R1.
+  unfold run_teardown_funcs. destruct (rs_died (run_teardown_list env (rev kept) r0)) eqn:D; [apply finish_died; auto|].
+  destruct R1 as [G1 [H1 C1]].
+  pose proof (close_phase l (rs_t (run_teardown_list env (rev kept) r0)) is_start end_ G1 Re) as Dn.
+  constructor; cbn [to_main to_children to_res]; auto.
+  apply (thread_done_prefix _ _ _ Dn).
+Qed.
+
+(* the location whose events a task emits *)
+Definition task_loc (t : task) : loc :=
+  match t_kind t with
+  | KSessionSetup => LSessionSetup
+  | KSessionTeardown => LSessionTeardown
+  | KSuiteInit => LSuiteSetup (t_path t)
+  | KSuiteTeardown => LSuiteTeardown (t_path t)
+  | _ => LTest (t_path t)             (* KTest; Begin / End tasks emit a single suite-level event, no step, no log *)
+  end.
+
+Theorem task_sem_threads_ok pr reg force t md setup_md o :
+  task_sem pr reg force t md setup_md = Some o -> threads_ok (task_loc t) o.
+Proof.
+  unfold task_sem, task_loc. destruct (t_kind t).
+  - destruct md; intros H; inversion H; subst; clear H.
+    + apply setup_phase_threads_ok; reflexivity.
+    + apply threads_ok_simple. intros a [].
+  - intros H; inversion H; subst. apply threads_ok_simple. simpl. intros a [<-|[]]; auto.
+  - destruct (find_suite_in (p_suites pr) (t_path t) false) as [[s inh]|]; [|discriminate].
+    destruct md; intros H; inversion H; subst; clear H.
+    + apply setup_phase_threads_ok; reflexivity.
+    + apply threads_ok_simple. intros a [].
+  - destruct (find_test_in (p_suites pr) (t_path t)) as [[[s inh] tst]|]; [|discriminate].
+    destruct ((inh || su_disabled s || tt_disabled tst) && negb force).
+    + intros H; inversion H; subst. apply threads_ok_simple. simpl. intros a [<-|[]]; auto.
+    + destruct md; intros H; inversion H; subst; clear H.
+      * apply test_run_threads_ok.
+      * apply threads_ok_simple. simpl. intros a [<-|[<-|[]]]; auto.
+  - destruct (find_suite_in (p_suites pr) (t_path t) false) as [[s inh]|]; [|discriminate].
+    intros H; inversion H; subst; clear H. apply teardown_phase_threads_ok; reflexivity.
+  - intros H; inversion H; subst. apply threads_ok_simple. simpl. intros a [<-|[]]; auto.
+  - intros H; inversion H; subst; clear H. apply teardown_phase_threads_ok; reflexivity.
+Qed.
